@@ -141,18 +141,29 @@ theorem archStep_err (H : Bytes → Bytes) (decomp : Nat → Bytes → Nat → O
   | nil => rfl
   | cons e l ih => rw [List.foldl_cons]; exact ih
 
-/-- What a successfully decoded chunk hashes to. -/
-theorem decodeChunk_key (H : Bytes → Bytes) (decomp : Nat → Bytes → Nat → Option Bytes) (compr : Compr)
+/-- What a successfully decoded chunk is: exactly as long as declared (F19 repair,
+`Gen.chunkLengthChecked`) and of the descriptor's hash. -/
+theorem decodeChunk_some_inv (H : Bytes → Bytes) (decomp : Nat → Bytes → Nat → Option Bytes) (compr : Compr)
     (d : Descr) (stored chunk : Bytes) (h : decodeChunk H decomp compr d stored = some chunk) :
-    hashTruncate (H chunk) d.checksum.length = d.checksum := by
+    chunk.length = d.sourceSize ∧ hashTruncate (H chunk) d.checksum.length = d.checksum := by
+  have hfact : Gen.chunkLengthChecked = true := by decide
   unfold decodeChunk at h
   simp only [Option.bind_eq_some_iff] at h
   obtain ⟨c, _, hc⟩ := h
-  split at hc
-  · rename_i hk
-    cases hc
-    exact hk
-  · cases hc
+  by_cases hl : c.length = d.sourceSize
+  · rw [if_neg (fun hh => hh.2 hl)] at hc
+    by_cases hk : hashTruncate (H c) d.checksum.length = d.checksum
+    · rw [if_pos hk] at hc
+      cases hc
+      exact ⟨hl, hk⟩
+    · rw [if_neg hk] at hc; cases hc
+  · rw [if_pos ⟨hfact, hl⟩] at hc; cases hc
+
+/-- What a successfully decoded chunk hashes to. -/
+theorem decodeChunk_key (H : Bytes → Bytes) (decomp : Nat → Bytes → Nat → Option Bytes) (compr : Compr)
+    (d : Descr) (stored chunk : Bytes) (h : decodeChunk H decomp compr d stored = some chunk) :
+    hashTruncate (H chunk) d.checksum.length = d.checksum :=
+  (decodeChunk_some_inv H decomp compr d stored chunk h).2
 
 /-- A run of the archive phase that reports no error has fed, for every descriptor of the
 fetch list in turn, the content of its key. -/
